@@ -44,5 +44,15 @@ sub.adjust(500.0); sub.children["a"].transact(2.0); root.update(idx[1])
 evals += 1
 if float(sub.children["a"].data["position"].iloc[1]) != 2.0 or float(root.data["value"].iloc[1]) != float(root.value):
     fails.append(dict(clause="update-writes-reach-node-data"))
+# quotes fed row by row (update(date, data)) for a ticker that is not a column of the universe: the price lands in the history, nothing raises
+feed = StrategyBase("feed", children=[Security("zz")])
+feed.setup(data); feed.adjust(1000.0)
+evals += 1
+try:
+    feed.update(idx[0]); feed.children["zz"].transact(1.0)          # (an idle security is not updated: give it a position first)
+    feed.update(idx[1], {"zz": 11.0})
+    if float(feed.children["zz"].prices.iloc[1]) != 11.0: fails.append(dict(clause="row-by-row-quotes-reach-the-price-history", got=float(feed.children["zz"].prices.iloc[1])))
+except Exception as e:
+    fails.append(dict(clause="row-by-row-quotes-reach-the-price-history", raised=repr(e)[:160]))
 samples.append(dict(pandas=pd.__version__, numpy=np.__version__, nodes=len(nodes(root))))
 print("JSON:" + json.dumps(dict(evaluations=evals, distinct=evals, failures=fails[:5], samples=samples, rule="every (node class, history series) pair of a 7-node tree", bound="one tree with all five security classes, both strategy kinds")))
